@@ -27,6 +27,9 @@ func init() {
 	register("C12", checkC12)
 	register("C13", checkC13)
 	register("C14", checkC14)
+	register("C15", checkC15)
+	register("C16", checkC16)
+	register("C17", checkC17)
 }
 
 func main() {
